@@ -9,7 +9,7 @@
     checked through this explicit correspondence rather than by a search for an isomorphism. *)
 From Coq Require Import String.
 From Coq Require Import List Ascii ZArith Bool.
-From CGV Require Import Base.PyBase Base.PyVal Base.NxGraph Gen.HydroGen Hydro.Hydrogens Hydro.Squash Hydro.HydroCheck.
+From CGV Require Import Base.PyBase Base.PyVal Base.NxGraph Gen.HydroGen Hydro.Hydrogens Hydro.Squash Hydro.SquashDefs Hydro.HydroCheck.
 Import ListNotations.
 Open Scope Z_scope.
 
@@ -129,13 +129,7 @@ Record case := {
   c_frag_heavy : Z;                    (* heavy atoms of all fragments of the shared description together *)
   c_npairs : Z }.                      (* shared pairs that were written *)
 
-Definition corr_ok (c : case) : bool :=
-  if c_skip c then true else
-  match squash_atoms (c_sq0 c), c_sq1 c with
-  | Ok g, Some o => obs_eqb (observe g) o
-  | Err _, None => true
-  | _, _ => false
-  end.
+
 
 (** defect class "stale-hcount-aromatic": after squash_atoms a merged aromatic atom still carries the
     hydrogen count of the kept copy, computed inside that copy's own fragment, so that its bonds plus
@@ -170,6 +164,21 @@ Fixpoint stale_lookup (sq : list (Z * Z)) (dead : list Z) (ps : list (Z * Z)) : 
       else stale_lookup (sq_set rm keep sq) (rm :: dead) r
   end.
 Definition stale_squashed_entry (g : graph) : bool := stale_lookup [] [] (bang_pairs g).
+
+(** the two bookkeeping classes cover everything the theorems exclude: outside them the hypothesis
+    [squash_safe] of squash_count / squash_neighbours / squash_membership holds (checked per case) *)
+Definition class_cover_ok (g : graph) : bool :=
+  redundant_squash_cycle g || stale_squashed_entry g
+  || squash_safe (node_keys g) [] [] (bang_items g).
+
+Definition corr_ok (c : case) : bool :=
+  if c_skip c then true else
+  class_cover_ok (c_sq0 c) &&
+  match squash_atoms (c_sq0 c), c_sq1 c with
+  | Ok g, Some o => obs_eqb (observe g) o
+  | Err _, None => true
+  | _, _ => false
+  end.
 
 (** a failing input that lies in a listed defect class is reported with the class's code (11 / 12 / 13);
     the class predicates are evaluated here, in Coq, with the definitions the theorems use *)
